@@ -207,7 +207,7 @@ theorem indent_roundtrip {t : Tree} (hr : Representable env t = true) {str : Str
     obtain ⟨ts', hl, her⟩ := lexDocument_lines _ hf.hmarkup hf.hlex
     obtain ⟨p0, hb, ht, he⟩ := hf.hbuild (strLen (renderLines (spellTopP env pr sup ks)))
     obtain ⟨p, hp, h1, h2, _⟩ := build_erase_ok .document _ (strLen (renderLines (spellTopP env pr sup ks))) env _ ts'
-      her.symm p0 hb
+      her.1.symm her.2 p0 hb
     refine ⟨p, ?_, by rw [h1, ht], by rw [h2, he]⟩
     simp only [parseString, lexMode, hl]
     exact hp
